@@ -531,15 +531,25 @@ def run(ctx):
 
 MANIFEST = dict(
     technique="Coq proof (invariant + refinement of a cache-free specification over all access histories, both "
-              "dlopen front ends, several libs on one shared library) + differential histories against the real "
-              "implementation on a gcc-compiled test library",
-    text="Proof: in the model of FFILibrary/__cffi_close__/dl_check_closed (in-line) and ffi_dlclose/cdlopen_fetch/"
-         "l_dict caching (out-of-line), after dlclose(lib) every variable read/write, function fetch and call through "
-         "lib — at any later point of any history — is refused and leaves library memory untouched "
-         "(C37_after_close_refused, C37_after_close_addr_refused); close is idempotent and returns None; before "
-         "close behaviour equals the plain library semantics; the model refines a cache-free specification "
-         "(C37_refines_spec). The model is tied to the code by random access histories run on both.",
-    note="Trusted: Coq kernel; hand model C37/Model.v (tied by differential testing); gcc, glibc dl*; CPython "
-         "attribute lookup order (data descriptor on the class before the instance dict before __getattr__). "
-         "Theorems closed under the global context.",
+              "dlopen front ends, owned and borrowed handles, several libs on one shared library) over a model whose "
+              "close paths and closed-tests are REGENERATED from the source (C37/Gen.v) + differential histories "
+              "against the real implementation on a gcc-compiled test library",
+    text="Proved for every history, both modes (in-line FFILibrary/__cffi_close__/dl_check_closed; out-of-line "
+         "ffi_dlclose/cdlopen_fetch/l_dict caching), owned and caller-supplied handles (lauto), several lib objects on "
+         "one library: after dlclose(lib) every variable read/write, function fetch and call through lib is refused and "
+         "leaves library memory untouched (C37_after_close_refused; C37_after_close_addr_refused for addresses taken "
+         "before); close is idempotent and returns None (C37_close_idempotent, C37_close_returns_none); before its close "
+         "a lib behaves as the plain library (C37_before_close_unchanged); only dlclose closes and only its own lib "
+         "(C37_only_close_closes, C37_other_libs_untouched); the model refines a cache-free specification "
+         "(C37_refines_spec). Regenerated on every run into C37/Gen.v and consulted by the model's OpClose/usable: the "
+         "statement lists of __cffi_close__ (api.py, ast), dl_close_lib and ffi_dlclose (handle reset and dict clearing "
+         "present, before dlclose out-of-line: C37_gen_close_paths), the guard of the reset is the NULL test alone "
+         "(C37_gen_handle_reset_unconditional), the closed test precedes dlsym in cdlopen_fetch and dl_load_function/"
+         "dl_read_variable/dl_write_variable (C37_gen_closed_test_precedes_dlsym). Correspondence only: process "
+         "survival, lib_getattr/lib_setattr caching order, that in-line variable properties re-enter the backend on "
+         "every access; not covered: dlopen constants of out-of-line modules, dealloc-time auto-close.",
+    note="Trusted: Coq kernel; the hand-written parts of C37/Model.v (caching logic of lib_getattr/lib_setattr and of "
+         "api.py accessors; tied by differential testing) — the close paths, guards and check-before-dlsym facts are "
+         "regenerated, fail closed; gcc, glibc dl*; CPython attribute lookup order (data descriptor on the class before "
+         "the instance dict before __getattr__). Theorems closed under the global context.",
     design_ref="DESIGN.md §4 C37")
